@@ -123,6 +123,15 @@ CHECKS.update({
             "13/269/65805 boundaries.",
             TB + "Responses produced by handler tasks are compared as a subsequence (their timing relative to later frames is not framing).",
             "DESIGN.md 6/C15"),
+    "C16": ("exploration", E1 + " (own reading of RFC 7252 s.6.4/6.5 with its own percent codec)",
+            "Message.set_request_uri / get_request_uri / UndecidedRemote / hostportjoin / hostportsplit are run over closed products: "
+            "9 schemes x 18 hosts (names, mixed case, percent-escapes, non-ASCII, IPv4 look-alikes, IPv6 literals, zones, IPvFuture, "
+            "broken brackets, empty) x 9 ports x userinfo/fragment toggles; path lists of length <= 3 and query lists of length <= 2 over "
+            "17 segments (every reserved character, empty, dots, non-ASCII, literal percent text) both as percent-encoded URI text and as "
+            "raw options; verbatim bad escapes; every string of length <= 3 over 13 structural characters behind six prefixes. Decomposition "
+            "must equal the model, recomposition must decompose to the same options and destination, options -> URI -> options must be the "
+            "identity, and every rejection must be MalformedUrlError or IncompleteUrlError.",
+            "Trusted: the model in mcv/props/c16_uri.py. Alphabets, not the full Unicode range.", "DESIGN.md 6/C16"),
     "C17": ("model_checking", E1 + "; " + E3,
             "Every configuration of a closed family (all sets of <= 3 resources at paths of length <= 3 over {a,b,''}, 0-2 nested sites "
             "incl. a second level and prefix-overlapping pairs, path-capable leaves, resources with rt/if/ct attributes and a hidden one) "
